@@ -797,11 +797,11 @@ VF_SECTION(roundtrip, 16, 16, 120) {
     }
   }
   // B: length 3..5 over the 16-symbol metacharacter set
-  static const unsigned QUICK_MASKS5[4] = {0x1F, 0x15, 0x0A, 0x04};
+  static const unsigned QUICK_MASKS5[2] = {0x15, 0x0A};
   for (size_t len = 3; len <= 5; len++) {
     vf::Odometer od(vector<uint32_t>(len, 16));
     for (; !od.done; od.step()) {
-      size_t nmasks = (len == 5 && !r.thorough()) ? 4 : ((size_t)1 << len);
+      size_t nmasks = (len == 5 && !r.thorough()) ? 2 : ((size_t)1 << len);
       for (size_t mi = 0; mi < nmasks; mi++) {
         if (!r.take()) continue;
         size_t mk = (len == 5 && !r.thorough()) ? QUICK_MASKS5[mi] : mi;
@@ -868,7 +868,7 @@ VF_SECTION(roundtrip, 16, 16, 120) {
     if (oc != "logic_error") r.fail("format_data_string:mask-size-unchecked", [&] { return "format_data_string(3 bytes, 2-byte mask) -> " + oc + ", documented: logic_error"; });
     else r.ok("mask size mismatch: logic_error");
   }
-  r.bound = string("format_data_string -> parse_data_string: all byte strings of length <=2 x every mask and no mask; all strings of length 3..5 over {00 a \" ' \\ LF TAB ? # $ % / * 7F 80 FF} x ") + (r.thorough() ? "every mask" : "every mask (len 3,4) / 4 masks (len 5)") +
+  r.bound = string("format_data_string -> parse_data_string: all byte strings of length <=2 x every mask and no mask; all strings of length 3..5 over {00 a \" ' \\ LF TAB ? # $ % / * 7F 80 FF} x ") + (r.thorough() ? "every mask" : "every mask (len 3,4) / the 2 alternating masks (len 5)") +
       "; lengths 6..64,100,127..129,255..257,511,512,599,600 x {printable, printable+metacharacter at first/middle/last, binary, zeros} x every mask (len<=8) / 14 run-length masks; x flags {0, HEX_ONLY}; both overloads for parts A and C";
 }
 
@@ -991,10 +991,10 @@ VF_SECTION(dump, 16, 16, 120) {
       const uint64_t starts[15] = {0, 1, 15, 16, 17, 0xF0, 0xFF, 0x100, 0xFFF8, 0x10000, 0xFFFFFFF8ull, 0x100000000ull, 0x8000000000000000ull,
           (uint64_t)0 - n - 16, (uint64_t)0 - n};
       for (uint64_t start : starts) {
-        // quick: the full 640-combination matrix on pattern 0, the 128 combinations without an OFFSET_*_BITS
-        // flag on the other patterns; thorough: all 640 everywhere.  The combination index is rotated per
+        // quick: the full 640-combination matrix on pattern 0 for sizes <= 48, the 128 combinations without an
+        // OFFSET_*_BITS flag on the other patterns and on the four large sizes; thorough: all 640 everywhere.  The combination index is rotated per
         // (pattern, size, address) so that every shard sees every column set.
-        const unsigned ncombo = (kind == 0 || r.thorough()) ? 640 : 128;
+        const unsigned ncombo = (r.thorough() || (kind == 0 && n <= 48)) ? 640 : 128;
         ordinal++;
         for (unsigned fj = 0; fj < ncombo; fj++) {
           if (!r.take()) continue;
@@ -1016,7 +1016,7 @@ VF_SECTION(dump, 16, 16, 120) {
     }
   }
   if (dat) fclose(dat);
-  r.bound = "format_data: sizes 0..48,255,256,257,600 x 15 start addresses (0,1,15,16,17,F0,FF,100,FFF8,10000,2^32-8,2^32,2^63,2^64-len-16,2^64-len) x all 640 combinations of {ASCII,FLOAT,DOUBLE} x {none,REVERSE,BIG,LITTLE} x COLLAPSE x SKIP_SEPARATOR x {none,OFFSET_8/16/32/64} on the mixed pattern (thorough: on all 4 patterns; quick: the 128 combinations without OFFSET flag on the printable, zero and boundary-value patterns); every line decoded by the independent dump parser";
+  r.bound = "format_data: sizes 0..48,255,256,257,600 x 15 start addresses (0,1,15,16,17,F0,FF,100,FFF8,10000,2^32-8,2^32,2^63,2^64-len-16,2^64-len) x all 640 combinations of {ASCII,FLOAT,DOUBLE} x {none,REVERSE,BIG,LITTLE} x COLLAPSE x SKIP_SEPARATOR x {none,OFFSET_8/16/32/64} on the mixed pattern (quick: sizes <= 48; the 128 combinations without OFFSET flag on the printable, zero and boundary-value patterns and on sizes 255..600; thorough: all 640 on all 4 patterns and all sizes); every line decoded by the independent dump parser";
 }
 
 VF_SECTION(dump_color, 8, 8, 120) {
